@@ -45,6 +45,7 @@ fn main() {
     for (name, ast) in &parsed {
         tr.translate_file(name, ast);
     }
+    tr.finish_peq();
     let outputs: BTreeMap<String, String> = tr.render();
     fs::create_dir_all(out).unwrap();
     for (rel, text) in &outputs {
